@@ -543,13 +543,23 @@ func (p *Parser) parseWhere(stmt *SelectStatement) error {
 		case TokenOR:
 			conditions = append(conditions, "||")
 		case TokenLIKE:
+			// "NOT LIKE" is one operator: keep its spelling (only a logical NOT is lowered)
+			if len(conditions) > 0 && conditions[len(conditions)-1] == "not" {
+				conditions[len(conditions)-1] = "NOT"
+			}
 			conditions = append(conditions, "LIKE")
 		case TokenIS:
 			conditions = append(conditions, "IS")
 		case TokenNULL:
 			conditions = append(conditions, "NULL")
 		case TokenNOT:
-			conditions = append(conditions, "NOT")
+			// expr-lang spells logical negation "not" (an upper-case NOT compiles as a call of an
+			// unknown function and every row is rejected); "IS NOT NULL" is rewritten later and keeps its spelling.
+			if len(conditions) > 0 && conditions[len(conditions)-1] == "IS" {
+				conditions = append(conditions, "NOT")
+			} else {
+				conditions = append(conditions, "not")
+			}
 		default:
 			// Handle string value quotes
 			if len(conditions) > 0 && conditions[len(conditions)-1] == "'" {
@@ -1546,13 +1556,23 @@ func (p *Parser) parseHaving(stmt *SelectStatement) error {
 		case TokenOR:
 			conditions = append(conditions, "||")
 		case TokenLIKE:
+			// "NOT LIKE" is one operator: keep its spelling (only a logical NOT is lowered)
+			if len(conditions) > 0 && conditions[len(conditions)-1] == "not" {
+				conditions[len(conditions)-1] = "NOT"
+			}
 			conditions = append(conditions, "LIKE")
 		case TokenIS:
 			conditions = append(conditions, "IS")
 		case TokenNULL:
 			conditions = append(conditions, "NULL")
 		case TokenNOT:
-			conditions = append(conditions, "NOT")
+			// expr-lang spells logical negation "not" (an upper-case NOT compiles as a call of an
+			// unknown function and every row is rejected); "IS NOT NULL" is rewritten later and keeps its spelling.
+			if len(conditions) > 0 && conditions[len(conditions)-1] == "IS" {
+				conditions = append(conditions, "NOT")
+			} else {
+				conditions = append(conditions, "not")
+			}
 		default:
 			// Handle string value quotes
 			if len(conditions) > 0 && conditions[len(conditions)-1] == "'" {
